@@ -63,7 +63,8 @@ fn size_of_pair<K: Kmer>() -> usize {
 pub fn gen(rng: &mut Rng, tier: &str) -> String {
     let k = pick_k(rng, tier);
     // one homopolymer read of 70 000 bases now and then: more than 65 535 observations of one k-mer (saturation)
-    let reads = if rng.chance(1, if tier == "thorough" { 400 } else { 1500 }) {
+    let saturating = rng.chance(1, if tier == "thorough" { 250 } else { 300 });
+    let reads = if saturating {
         vec![vec![rng.below(4) as u8; 70000]]
     } else {
         gen_reads(rng, k, if tier == "thorough" { 30 } else { 8 }, if tier == "thorough" { 400 } else { 70 })
@@ -75,7 +76,10 @@ pub fn gen(rng: &mut Rng, tier: &str) -> String {
     let target = match rng.below(6) { 0 => 1, 1 => 2, 2 => rng.range(2, 8), 3 => rng.range(8, 64), 4 => rng.range(64, 256), _ => 300 };
     let kmer_mem = (n_kmers * sz).max(1);
     let bpu = if target == 1 { kmer_mem + 1 } else { (kmer_mem / (mem * (target - 1))).max(1) };
-    let summ = if rng.chance(1, 2) { format!("count:{}", *rng.pick(&[0usize, 1, 1, 2, 2, 3, 4, 70000])) } else { format!("set:{}", *rng.pick(&[0usize, 1, 1, 2, 3, 4])) };
+    let summ = if saturating {
+        // thresholds around the u16 saturation point of the count: at 65535 the k-mer is accepted, above it nothing is
+        format!("count:{}", *rng.pick(&[65535usize, 65536, 66000, 69000, 70000, 1]))
+    } else if rng.chance(1, 2) { format!("count:{}", *rng.pick(&[0usize, 1, 1, 2, 2, 3, 4, 70000])) } else { format!("set:{}", *rng.pick(&[0usize, 1, 1, 2, 3, 4])) };
     // probes: some present k-mers (windows of reads), some random
     let mut probes: Vec<String> = Vec::new();
     for _ in 0..6 {
